@@ -714,6 +714,13 @@ mod unstable {
                                                     c2.clone(),
                                                     variables.clone(),
                                                 )
+                                                // two copies of the same equality X = t: removing the
+                                                // "dropped" one by value removes both, which is only
+                                                // sound for the trivial equality X = X
+                                                .filter(|(keep_var, drop_var, drop_term)| {
+                                                    keep_var != drop_var
+                                                        || drop_term.term == drop_term.guards[0].term
+                                                })
                                             {
                                                 ct_copy.retain(|t| {
                                                     t != &Formula::AtomicFormula(
